@@ -387,10 +387,12 @@ def plan_path_runs(side, projects, probes, thorough):
         ok = {i for i, f in enumerate(frs) if f["lines"] >= ml and f["size"] >= mn}
         pool = [(p["sim"], p["dist"]) for p in probe["exh_raw"] if p["i"] in ok and p["j"] in ok]
         t = cc.rand_thresholds(side, [x for x, _ in pool])
+        if t[3] < 0.3 + 1e-9:       # the probe saw the pairs from similarity 0.3 on
+            continue
         lim = pick_reporting_limits(side, pool, t, force=len(runs) < 2)
         if lim is None:
             continue
-        gate = len(runs) % 4 == 3
+        gate = False                # the classifier gate is exercised by the command-line runs; the probe's comparisons have none
         cfg = dict(MinLines=ml, MinNodes=mn, SimilarityThreshold=lim[0], MaxEditDistance=lim[1], Type1Threshold=t[0], Type2Threshold=t[1],
                    Type3Threshold=t[2], Type4Threshold=t[3], SkipDocstrings=False, ReduceBoilerplateSimilarity=False, BoilerplateMultiplier=0,
                    MaxClonePairs=10000, BatchSizeThreshold=side.choice([1, 2, 3]), BatchSizeLarge=side.choice([1, 2, 3, 7, 0]),
@@ -398,7 +400,13 @@ def plan_path_runs(side, projects, probes, thorough):
         lsh = [WIDE_LSH, dict(bands=side.choice([1, 8, 32]), rows=side.choice([1, 2, 4]), hashes=side.choice([16, 64, 128]), threshold=side.choice([0.0, 0.3, 0.5]))]
         texts = projects[pi][0]
         near = sum(1 for x, d in pool if t[3] <= x < lim[0]), sum(1 for x, d in pool if x >= lim[0] and lim[1] > 0 and d > lim[1])
-        runs.append(dict(pi=pi, texts=texts, cfg=cfg, near=near, req=cc.driver_req(sorted(texts.items()), cfg, batch_sizes=[1, 3, 7], lsh=lsh, table="upper")))
+        # the tree comparisons (similarity, distance) are those of the lenient probe run, by fragment location
+        cells = {}
+        for p in probe["exh_raw"]:
+            a, b = frs[p["i"]], frs[p["j"]]
+            cells[((a["file"], a["start"], a["end"]), (b["file"], b["start"], b["end"]))] = (p["sim"], p["dist"])
+        runs.append(dict(pi=pi, texts=texts, cfg=cfg, near=near, cells=cells,
+                         req=cc.driver_req(sorted(texts.items()), cfg, batch_sizes=[1, 3, 7], lsh=lsh, table="none")))
     return runs
 
 
@@ -411,9 +419,11 @@ def decide_path_runs(ck, runs, results, stats, jobs, thorough):
         cfg, frags = r["cfg"], res["frags"]
         t = [cfg["Type1Threshold"], cfg["Type2Threshold"], cfg["Type3Threshold"], cfg["Type4Threshold"]]
         thr = cfg["SimilarityThreshold"] if cfg["SimilarityThreshold"] > 0 else t[3]
+        at = {(f["file"], f["start"], f["end"]): i for i, f in enumerate(frags)}
         cells = {}
-        for c in res["table"]:
-            cells[(c["i"], c["j"])] = cells[(c["j"], c["i"])] = (c["sim"], c["dist"])
+        for (la, lb), v in r["cells"].items():
+            if la in at and lb in at:
+                cells[(at[la], at[lb])] = cells[(at[lb], at[la])] = v
         replay = {"kind": "detector-paths", "files": r["texts"], "detector_config": cfg, "request": r["req"]}
         n = len(frags)
         stats["path_runs"] = stats.get("path_runs", 0) + 1
@@ -447,36 +457,25 @@ def decide_path_runs(ck, runs, results, stats, jobs, thorough):
                         ck.violation("%s does not report a verbatim copy as (1.0, 0, Type-1): %s vs %s, got %s" % (name, floc(frags[i]), floc(frags[j]), seen.get((i, j))),
                                      dict(replay, path=name, frag_a=frags[i], frag_b=frags[j]))
                         break
-        # model: the same fragments and configuration on every path
-        if n == 0:
+        # model: the same fragments and configuration on the comparison loops.  Similarity cells = the probe's comparisons (a pair
+        # the probe does not report was rejected by a pre-filter or lies below 0.3: the missing cell reproduces that), no feature lists
+        # (the Jaccard pre-filter and the LSH stage are tied to the model by the command-line cases above and by C09)
+        if n == 0 or res["uses_gate"]:
             continue
         files, trees = cc.Coder(), cc.Coder()
         mc = cc.model_cfg_from_detector(dict(cc.service_cfg({k: 0 for k in (
             "min_lines", "min_nodes", "type1_threshold", "type2_threshold", "type3_threshold", "type4_threshold", "similarity_threshold",
             "max_edit_distance", "ignore_literals", "ignore_identifiers", "skip_docstrings", "enable_dfa", "lsh_similarity_threshold",
-            "lsh_bands", "lsh_rows", "lsh_hashes")}), **cfg), use_gate=res["uses_gate"])
-        table = {"table": res["table"] + [dict(c, i=c["j"], j=c["i"]) for c in res["table"]]}
+            "lsh_bands", "lsh_rows", "lsh_hashes")}), **cfg), use_gate=False)
+        table = {"table": [dict(i=k[0], j=k[1], sim=v[0], dist=v[1], gate=True) for k, v in cells.items()]}
         cellsq, gates = cc.coq_cells(table, mc["t4"])
-        body = "Definition c0 := %s.\nDefinition fs0 := %s.\n" % (cc.coq_cfg(mc), cc.frags_terms(res, None, files, trees))
-        body += "Definition cells : qtab := %s.\nDefinition gates : list (N * N) := %s.\nDefinition tabs0 := Build_tables cells gates [].\n" % (cellsq, gates)
+        body = "Definition c0 := %s.\nDefinition fs0 := %s.\n" % (cc.coq_cfg(mc), clist([cc.coq_frag(i, f, files, trees) for i, f in enumerate(frags)]))
+        body += "Definition tabs0 := Build_tables %s %s [].\n" % (cellsq, gates)
         body += "Eval vm_compute in (run_exhaustive tabs0 c0 fs0).\nEval vm_compute in (run_detect tabs0 c0 fs0).\n"
         evals = [("the standard double loop", res["exh_raw"]), ("the public entry point", res["detect"])]
-        # quick tier: the model gets the public entry point (batched), the batched loop with batch size 1 (every pair compared as
-        # (later, earlier)) and one LSH setting; the clauses above are decided on every path
         for bs, ps in sorted(res["batched"].items()):
-            if not thorough and bs != "1":
-                continue
             body += "Eval vm_compute in (run_batched tabs0 c0 fs0 %s).\n" % cZ(int(bs))
             evals.append(("the batched loop with batch size %s" % bs, ps))
-        vals = cc.Coder()
-        for li, lr in enumerate(res["lsh"]):
-            if not thorough and li != len(res["lsh"]) - 1:
-                continue
-            lp = lr["params"]
-            mcl = dict(mc, use_lsh=True, lsh_thr=lp["threshold"], lsh_bands=lp["bands"], lsh_rows=lp["rows"], lsh_hashes=lp["hashes"])
-            body += "Definition c%d := %s.\nDefinition fs%d := %s.\n" % (li + 1, cc.coq_cfg(mcl), li + 1, cc.frags_terms(res, lr, files, trees))
-            body += "Definition tabs%d := Build_tables cells gates %s.\nEval vm_compute in (run_lsh tabs%d c%d fs%d).\n" % (li + 1, cc.coq_sigs(lr, vals), li + 1, li + 1, li + 1)
-            evals.append(("the LSH path %s" % lp, lr["pairs"]))
         jobs.append(("C08_paths_%d" % ri, cc.REQ, body))
         r["job"], r["evals"] = len(jobs) - 1, evals
 
